@@ -103,13 +103,13 @@ func init() {
 		// checkers that quote syntax (original and/or suggested code) in their messages
 		var hs []harness
 		quoting := quotingCheckers()
-		for _, h := range visitHarnesses(map[string]int{"K": 3, "B": 2, "strlen": 8, "paths": 1000, "wall_s": 25}, map[string]int{"K": 4, "B": 2, "strlen": 8, "paths": 30000, "wall_s": 600}) {
+		for _, h := range visitHarnesses(map[string]int{"K": 3, "B": 2, "strlen": 8, "paths": 1000, "wall_s": 25}, map[string]int{"K": 4, "B": 2, "strlen": 8, "paths": 30000, "wall_s": 600, "witness": 1}) {
 			if strings.HasPrefix(h.Name, "gsxVisit_") && quoting[strings.TrimPrefix(h.Name, "gsxVisit_")] {
 				hs = append(hs, h)
 			}
 		}
 		hs = append(hs,
-			harness{Name: "gsxC09CommentFix", Pkg: "checkers", Quick: map[string]int{"strlen": 10, "paths": 4000, "wall_s": 120}, MustReach: []string{"checked", "reported", "re-analysed"}},
+			harness{Name: "gsxC09CommentFix", Pkg: "checkers", Quick: map[string]int{"strlen": 8, "paths": 4000, "wall_s": 150}, Thorough: map[string]int{"strlen": 12, "paths": 20000, "wall_s": 900}, MustReach: []string{"checked", "reported", "re-analysed"}},
 			harness{Name: "gsxC09RuleFix", Pkg: "checkers", Quick: map[string]int{"strlen": 4, "paths": 4000, "wall_s": 120}, NoValidate: true, Replay: "none", MustReach: []string{"checked"}})
 		properties["C09"] = &property{ID: "C09", Level: "model_checking", Kinds: []string{"suggest"}, Harnesses: hs,
 			Assumptions: []string{"as C01; the syntax trees handed to the message printer are checked against go/ast's documented well-formedness (required children present); confirmed natively: the printed suggestion parses as the replaced category, substituted for the original the file type-checks with the same type, and re-analysis does not report at that place"}}
